@@ -41,13 +41,14 @@ Definition pulse_result (e : Z) : Z :=
 (* ... and the time it takes: the echo, or the whole time-out *)
 Definition pulse_cost (r : Z) : Z := if 0 <? r then r else pulse_timeout.
 
-(* the three function statics *)
-Record ustate := { last_trig : Z; last_dist : Q; has_dist : bool }.   (* last_trig: an unsigned long, 0 <= . < 2^W *)
+(* the four function statics *)
+Record ustate := { last_trig : Z; has_trig : bool; last_dist : Q; has_dist : bool }.   (* last_trig: an unsigned long, 0 <= . < 2^W *)
 
 (*  static unsigned long __redu_last_trigger_ms = 0UL;
+    static bool __redu_has_triggered = false;
     static float __redu_last_distance = 400.0f;
     static bool __redu_has_distance = false;            *)
-Definition u_init : ustate := {| last_trig := 0; last_dist := 400 # 1; has_dist := false |}.
+Definition u_init : ustate := {| last_trig := 0; has_trig := false; last_dist := 400 # 1; has_dist := false |}.
 
 Definition min_interval : Z := 60.      (* const unsigned long __redu_min_interval_ms = 60UL; *)
 Definition max_attempts : nat := 3.     (* const unsigned int  __redu_max_attempts   = 3U;   *)
@@ -61,12 +62,12 @@ Inductive uev :=
                                               millis() then stored in __redu_last_trigger_ms = stamp (wrapped) *)
 
 (*  unsigned long now = millis();
-    if (last_trigger != 0UL) {
+    if (has_triggered) {
       unsigned long elapsed = now - last_trigger;
       if (elapsed < min_interval) { delay(min_interval - elapsed); now = millis(); } }   *)
 Definition backoff_delay (W : Z) (st : ustate) (c : clock) : option Z :=
   let now := millis W c in
-  if last_trig st =? 0 then None
+  if negb (has_trig st) then None
   else let elapsed := wrap W (now - last_trig st) in            (* unsigned subtraction *)
        if elapsed <? min_interval then Some (min_interval - elapsed) else None.
 
@@ -78,7 +79,7 @@ Definition after_backoff (W : Z) (drift : nat -> Z) (st : ustate) (c : clock) : 
 
 Record attempt := { a_delay : option Z; a_t : Z; a_dur : Z; a_stamp : Z; a_clk : clock }.
 
-(* one iteration of the for loop up to and including  last_trigger = millis(); *)
+(* one iteration of the for loop up to and including  last_trigger = millis(); has_triggered = true; *)
 Definition u_attempt (W : Z) (drift echo : nat -> Z) (st : ustate) (c : clock) (np : nat) : attempt :=
   let c1 := after_backoff W drift st c in
   let c2 := tick_us c1 2 in                   (* digitalWrite(trig, LOW); delayMicroseconds(2); *)
@@ -110,11 +111,11 @@ Fixpoint u_loop (W : Z) (n : nat) (drift echo : nat -> Z) (st : ustate) (c : clo
       let a := u_attempt W drift echo st c np in
       if 0 <? a_dur a then
         {| r_val := dist_of (a_dur a);
-           r_st := {| last_trig := a_stamp a; last_dist := dist_of (a_dur a); has_dist := true |};
+           r_st := {| last_trig := a_stamp a; has_trig := true; last_dist := dist_of (a_dur a); has_dist := true |};
            r_clk := a_clk a; r_np := S np; r_evs := attempt_events a |}
       else
         let r := u_loop W k drift echo
-                   {| last_trig := a_stamp a; last_dist := last_dist st; has_dist := has_dist st |}
+                   {| last_trig := a_stamp a; has_trig := true; last_dist := last_dist st; has_dist := has_dist st |}
                    (a_clk a) (S np) in
         {| r_val := r_val r; r_st := r_st r; r_clk := r_clk r; r_np := r_np r;
            r_evs := attempt_events a ++ r_evs r |}
@@ -146,10 +147,10 @@ Definition trig_of (e : uev) : list (Z * Z * Z) :=
 Definition trigs (evs : list uev) : list (Z * Z * Z) := flat_map trig_of evs.
 
 (* two consecutive triggers are at least 60 ms of *true* time (whole milliseconds of the un-wrapped
-   clock) apart unless the unsigned long stored after the first one was 0 *)
+   clock) apart - whatever unsigned long was stored after the first one *)
 Definition spaced (a b : Z * Z * Z) : Prop :=
-  let '(t1, _, m1) := a in let '(t2, _, _) := b in
-  m1 <> 0 -> t2 / 1000 - t1 / 1000 >= min_interval.
+  let '(t1, _, _) := a in let '(t2, _, _) := b in
+  t2 / 1000 - t1 / 1000 >= min_interval.
 
 Fixpoint all_spaced (l : list (Z * Z * Z)) : Prop :=
   match l with
